@@ -381,7 +381,9 @@ impl Ctx {
         };
         let mut rx: Vec<u8> = hex::decode(&r).ok()?;
         rx[0] ^= 1;
-        let subst = [("$REF", r.clone()), ("$REFU", r.to_uppercase()), ("$REFX", hex::encode(rx))];
+        // $REFP / $REFQ: a proper prefix of the reference (16 bytes / 1 byte); $REFE: the reference followed by one more byte
+        let subst = [("$REF", r.clone()), ("$REFU", r.to_uppercase()), ("$REFX", hex::encode(rx)),
+                     ("$REFP", r[..r.len() / 2].to_string()), ("$REFQ", r[..2].to_string()), ("$REFE", format!("{r}ab"))];
         let tags = parse_tags(field(t, "tags")?, &subst)?;
         let ev = EventBuilder::new(Kind::from(kind), content).tags(tags).sign_with_keys(keys).ok()?;
         Some(Self::kp_res(self.mdk.parse_key_package(&ev)))
